@@ -37,6 +37,7 @@ class Gen:
     def __init__(self, chk, P=None):
         self.chk, self.P, self.n = chk, P, 0
         self.shaped = set()
+        self.replen = 3 if chk.tier == 'thorough' else 2
 
     def leaf(self, ty, sym, name):
         self.n += 1
@@ -78,7 +79,7 @@ class Gen:
                 if mode == 'unset':
                     d[sname] = None
                 else:
-                    arm = fs[profile[1] % len(fs)] if profile[0] == 'full' else fs[(profile[2] if len(profile) > 2 else 0) % len(fs)]
+                    arm = fs[profile[1] % len(fs)] if profile[0] == 'full' else fs[(profile[2] if len(profile) > 2 and profile[0] == 'only' else 0) % len(fs)]
                     d[sname] = (arm.name, self.value(arm, sym, depth, nm + '.' + arm.name))
                 continue
             if f.label == 'map':
@@ -96,7 +97,7 @@ class Gen:
                         ents.append((k, x))
                     d[sname] = ents
             elif f.label == 'repeated':
-                d[sname] = [] if mode == 'unset' else [self.value(f, sym, depth, f'{nm}[{j}]', j) for j in range(2)]
+                d[sname] = [] if mode == 'unset' else [self.value(f, sym, depth, f'{nm}[{j}]', j) for j in range(self.replen)]
             elif f.kind == 'msg' or f.label == 'optional':
                 d[sname] = None if mode == 'unset' else self.value(f, sym, depth, nm)
             else:
@@ -135,6 +136,8 @@ def slot_mode(profile, si):
         return 'set' if si == profile[1] else 'unset'
     if profile[0] == 'without':
         return 'unset' if si == profile[1] else 'set'
+    if profile[0] == 'pair':
+        return 'set' if si in profile[1:3] else 'unset'
     raise ValueError(profile)
 
 
@@ -148,6 +151,9 @@ def profiles(m, tier):
             for a in range(len(fs)):
                 out.append(('only', si, a))
             out.append(('without', si))
+    if tier == 'thorough':
+        pres = [si for si, (sname, fs) in enumerate(slots) if len(fs) > 1 or fs[0].oneof or fs[0].label in ('map', 'repeated', 'optional') or fs[0].kind == 'msg']
+        out += [('pair', i, j) for i in pres for j in pres if i < j]
     return out
 
 
@@ -984,11 +990,11 @@ def build(chk):
     schema = chk.schema
     chk.bounds = {
         'message types': f'all {len(schema.messages)} message types and {len(schema.enums)} enum types of proto/ommx/v1/*.proto, each as the message under test',
-        'presence patterns': 'per message: everything set (one run per oneof arm), nothing set, each optional/repeated/map/oneof/message field alone (each arm), each one missing — not the full cross product '
+        'presence patterns': ('thorough tier: additionally every pair of such fields set together; ' if chk.tier == 'thorough' else '') + 'per message: everything set (one run per oneof arm), nothing set, each optional/repeated/map/oneof/message field alone (each arm), each one missing — not the full cross product '
                              '(the derive output handles fields one after another, independently)',
         'scalar leaves of the message under test': 'solver variables: u64/i64 as 64-bit vectors, enum/i32 fields as 32-bit vectors (all 2^32 numbers, known or not), bool, double as an arbitrary real or +-inf; '
                                                      'strings by explored choice among "", ascii, non-ascii',
-        'sizes': 'repeated fields 0 or 2 elements, maps 0 or 2 entries (keys: the default key and one other), nested messages are concrete fully-populated samples (depth <= 3; each type is itself a message under test)',
+        'sizes': f'repeated fields 0 or {3 if chk.tier == "thorough" else 2} elements, maps 0 or 2 entries (keys: the default key and one other), nested messages are concrete fully-populated samples (depth <= 3; each type is itself a message under test)',
         'foreign encodings': 'two layouts per value: ascending field order / packed / explicit defaults, and descending order / one unpacked element + packed run / map value before key / an unknown field of every wire type after each field',
         'enum numbers': 'try_from, is_valid over every i32',
     }
